@@ -1,6 +1,8 @@
 import BM.Proofs.Step
 import BM.Proofs.Escape
 import BM.Proofs.RoundTrip
+import BM.Proofs.Bytes
+import BM.Props.C14
 /-
   C06: text is preserved exactly and always emitted escaped.  Proved (event level, all
   policies with AllowUnsafe off, all token sequences):
@@ -14,7 +16,7 @@ import BM.Proofs.RoundTrip
   equality of re-read texts is checked by `oracleC06` on every case.
 -/
 namespace BM.Props
-open BM BM.Html
+open BM BM.Html BM.Spec
 
 theorem text_written_once (p : Policy) (st : LoopState) (t : Token) (htt : t.tt = .text)
     (hskip : st.skipElementContent = false) (hrec : isScriptOrStyle st.mostRecentlyStartedToken = false) :
@@ -50,6 +52,100 @@ theorem non_text_writes_are_markup (p : Policy) (hs : p.addSpaces = false) (hu :
   | closeTag htt _ _ => intro w hw; simp at hw; subst hw; simp [Token.render, htt]
   | text htt _ _ => exact absurd htt hnt
   | rawText _ h _ => simp [hu] at h
+
+/-! ### byte level -/
+
+theorem tokWF_nameOK {t : Token} (h : TokWF t) : NameOK t := by
+  intro htt
+  unfold TokWF at h
+  rw [htt] at h
+  obtain ⟨⟨c, cs, hd, hc, _⟩, _⟩ := h
+  rw [hd]
+  simp only [List.head?_cons, ne_eq, Option.some.injEq]
+  intro h47; subst h47; revert hc; decide
+
+/-- what one quiet iteration writes, as tokens: the text itself for a text token, only tags
+    otherwise (no spaces are added) -/
+theorem quiet_step_toks {p : Policy} (hp : Plain p) (hs : p.addSpaces = false) {st : LoopState} {t : Token}
+    (hwf : TokWF t) (hq : Quiet st) {st' : LoopState} {ws : List Write} (h : p.step st t = some (st', ws)) :
+    ∃ toks : List Token, ws.map (·.data) = toks.map Token.render ∧ (∀ k ∈ toks, SegOK k) ∧
+      textOf toks = textOf [t] := by
+  by_cases htt : t.tt = .text
+  · have := text_written_once p st t htt hq.1 hq.2
+    rw [this] at h
+    simp only [Option.some.injEq, Prod.mk.injEq] at h
+    obtain ⟨_, rfl⟩ := h
+    refine ⟨[⟨.text, t.data, []⟩], by simp [Token.render], by intro k hk; simp at hk; subst hk; simp [SegOK], ?_⟩
+    rw [textOf_cons, textOf_cons, htt]
+  · obtain ⟨toks, hr, hf⟩ := emit_toks hp hwf (step_emit p st t st' ws h)
+    refine ⟨toks, hr, fun k hk => (hf k hk).1, ?_⟩
+    have hnt : ∀ k ∈ toks, (k.tt == TT.text) = false := by
+      intro k hk
+      obtain ⟨_, hor⟩ := hf k hk
+      rcases hor with ⟨_, (⟨_, hsp⟩ | ⟨ht, _⟩)⟩ | ⟨hkt, _⟩
+      · rw [hs] at hsp; cases hsp
+      · exact absurd ht htt
+      · rw [hkt]; revert htt; cases t.tt <;> intro htt <;> first | rfl | exact absurd rfl htt
+    have h1 : textOf toks = [] := by
+      unfold textOf
+      rw [List.filter_eq_nil_iff.mpr (fun k hk => by simp [hnt k hk])]
+      rfl
+    have h2 : textOf [t] = [] := by
+      have : (t.tt == TT.text) = false := by
+        revert htt; cases t.tt <;> intro htt <;> first | rfl | exact absurd rfl htt
+      rw [textOf_cons, this]; rfl
+    rw [h1, h2]
+
+/-- in a quiet run without added spaces the written tokens carry exactly the input's text -/
+theorem run_text {p : Policy} (hp : Plain p) (hs : p.addSpaces = false) (ts : List Token)
+    (hwf : ∀ t ∈ ts, TokWF t) (hc : ∀ t ∈ ts, CalmTok p t) :
+    ∀ st, Quiet st → StackInv st → ∃ toks : List Token,
+      (p.run st ts).1.map (·.data) = toks.map Token.render ∧ (∀ k ∈ toks, SegOK k) ∧
+      textOf toks = textOf ts := by
+  induction ts with
+  | nil => intro st _ _; exact ⟨[], by simp [Policy.run], by simp, rfl⟩
+  | cons t ts ih =>
+    intro st hq hi
+    obtain ⟨st', ws, hstep, hi'⟩ := step_safe p st t (tokWF_nameOK (hwf t (by simp))) hi
+    have hq' := step_quiet p st t st' ws hstep hq (hc t (by simp))
+    obtain ⟨k1, hr1, hs1, ht1⟩ := quiet_step_toks hp hs (hwf t (by simp)) hq hstep
+    obtain ⟨k2, hr2, hs2, ht2⟩ := ih (fun x hx => hwf x (by simp [hx])) (fun x hx => hc x (by simp [hx])) st' hq' hi'
+    refine ⟨k1 ++ k2, ?_, ?_, ?_⟩
+    · unfold Policy.run; simp only [hstep]; simp [hr1, hr2]
+    · intro k hk; simp only [List.mem_append] at hk
+      rcases hk with h | h
+      · exact hs1 k h
+      · exact hs2 k h
+    · rw [textOf_append, ht1, ht2]
+      have : t :: ts = [t] ++ ts := rfl
+      rw [this, textOf_append]
+
+/-- **C06 (byte level)**: for a plain policy (no AllowUnsafe, no comments, no raw-text element
+    allowed) without AddSpaceWhenStrippingTag, and an input whose tags are neither script/style
+    nor in the policy's skip-content set, the text an HTML tokenizer reads from the output
+    equals the text it reads from the input — nothing lost, duplicated, altered or turned
+    into markup. -/
+theorem C06_bytes (p : Policy) (hp : Plain p.ensureInit) (hs : p.ensureInit.addSpaces = false) (input : Bytes)
+    (hc : ∀ t ∈ tokenize input, CalmTok p.ensureInit t) :
+    textOf (tokenize (p.sanitizeCore input)) = textOf (tokenize input) := by
+  obtain ⟨toks, hr, hseg, htext⟩ :=
+    run_text hp hs (tokenize input) (tokenize_wf input) hc {} ⟨rfl, rfl⟩ stackInv_init
+  have hb : p.sanitizeCore input = renderAll toks := by
+    unfold Policy.sanitizeCore Policy.sanitizeTokens
+    rw [hr, flatten_map_render]
+  rw [hb, tokenize_renderAll toks hseg, textOf_coalesce]
+  simpa using htext
+
+/-- non-vacuity: the hypotheses of `C06_bytes` are met by a concrete policy and input with
+    kept tags, dropped tags and entities -/
+example :
+    let p : Policy := { initialized := true, elsAndAttrs := [(b!"b", [])], setOfElementsAllowedWithoutAttrs := [b!"b"],
+                        setOfElementsToSkipContent := [b!"object"] }
+    p.ensureInit.addSpaces = false ∧
+    (∀ t ∈ tokenize b!"a &amp; <i>&lt;c</i> <b>d</b>", CalmTok p.ensureInit t) := by
+  refine ⟨rfl, ?_⟩
+  unfold CalmTok
+  decide
 
 example :
     let p : Policy := { initialized := true, elsAndAttrs := [(b!"b", [])], setOfElementsAllowedWithoutAttrs := [b!"b"] }
